@@ -237,6 +237,15 @@ class PythonExpressionMapper(StringifyMapper):
                     self.rec(expr.exponent, PREC_POWER, *args, **kwargs)),
                 enclosing_prec, PREC_POWER)
 
+    def map_logical_not(self, expr, enclosing_prec, *args, **kwargs):
+        # In Python "not" binds less tightly than comparisons (and everything
+        # above them), so e.g. Comparison(LogicalNot(a), ">", 1) needs
+        # parentheses around the negation.
+        from pymbolic.mapper.stringifier import PREC_LOGICAL_AND, PREC_UNARY
+        return self.parenthesize_if_needed(
+                "not " + self.rec(expr.child, PREC_UNARY, *args, **kwargs),
+                enclosing_prec, PREC_LOGICAL_AND)
+
     def map_if(self, expr, enclosing_prec):
         from dagrt.expression import PREC_IFTHENELSE
         return self.parenthesize_if_needed(
